@@ -93,7 +93,7 @@ def run(ck, ctx):
                         dup = len(set(names)) != len(names)
                         ck.ob("R14.1", f"{fn.name}: column names are distinct", not dup, (m.relpath, fn.lineno, 0),
                               fn.name, f"{names}")
-        ck.floor("R14.1", n, 6, "syntactic return statements of storing functions")
+        ck.info["syntactic_store_returns"] = n     # informational: the arity is decided on the graph in (a)
     ck.guard(r141, "R14.1")
 
     # ---------------------------------------------------------------- R14.2 store= the writer
@@ -201,7 +201,7 @@ def run(ck, ctx):
                 ck.ob("R14.5", f"{callee}: numtrajs <- cfg.simulation.thrown_events", a is not None and a.op == "Cfg"
                       and a.attr == ("simulation", "thrown_events"), a if a is not None else v, func,
                       g.show(a, 1) if a is not None else "missing")
-        ck.floor("R14.5", n, 22, "wiring pairs")
+        ck.floor("R14.5", n, 18, "wiring pairs")
     ck.guard(r145, "R14.5")
 
     # ---------------------------------------------------------------- R14.6 early return
@@ -300,7 +300,7 @@ def run(ck, ctx):
                   (m.relpath, node.lineno, 0), enc, "" if ok else
                   "own generator / seeding / another random source: a seeded run would no longer be reproducible "
                   "from the global seed", construct=f"{enc}: {q}")
-        ck.floor("R14.8", n, 8, "random-draw call sites in the simulation modules")
+        ck.floor("R14.8", n, 5, "random-draw call sites in the simulation modules")
         ck.info["rng_call_sites"] = n
         seeds = census.calls(ctx.prog, lambda q: q in ("numpy.random.seed", "random.seed", "numpy.random.default_rng",
                                                        "numpy.random.RandomState", "numpy.random.SeedSequence"))
